@@ -50,7 +50,7 @@
 (* QUARTER planes so that average ring differences of truncated segments   *)
 (* stay integral: Z4 = 4 z.                                                *)
 (***************************************************************************)
-EXTENDS Geometry
+EXTENDS Geometry, IOUtils
 
 Mod(a, n) == ((a % n) + n) % n
 NumViews(c) == NV(c) \div c.mash
@@ -71,8 +71,13 @@ PhiOffsetZero(c, g) == c.mash = 1 /\ ~g.tilt
 \* ProjMatrixByBinUsingRayTracing with use_actual_detector_boundaries (section 3b).  The unchanged
 \* implementation keeps every symmetry in that mode (known finding C03-uadb); the proposed patch
 \* notes/C03-fix-1.diff drops the two phi symmetries and traverses the chord in the nominal direction.
-\* Set UadbFixApplied to TRUE when that patch is committed.
-UadbFixApplied == FALSE
+\* The runner sets the environment variable C03_UADB_FIXED when the patched lines are present in the
+\* source tree under test (the known finding is then expected to be marked fixed, so that the
+\* unpatched behaviour becomes a VIOLATION again).
+UadbFixApplied == "C03_UADB_FIXED" \in DOMAIN IOEnv
+\* likewise for notes/C03-fix-3.diff (interpolating matrix: no 90 degrees symmetry for images with different
+\* sizes in x and y; grid field sqrange, see C03TraceCommon!GridOf): environment variable C03_INTERP_SQUARE_FIXED
+InterpSquareFixApplied == "C03_INTERP_SQUARE_FIXED" \in DOMAIN IOEnv
 UsesChords(g) == "uadb" \in DOMAIN g /\ g.uadb
 EffectiveSwitches(c, g, sw) ==
   LET s180r == sw.s90 \/ sw.s180                      \* constructor: 180 := 90 or 180
